@@ -71,6 +71,10 @@ def gen(rng, max_n=8, p_sel=0.3, p_fail=0.06, mixed=True):
         specs.append(dict(preds=preds[i], prio=rng.choice([0, 0, 1, 2, 3, -1, 5, -3]), seq=rng.random() < 0.25,
                           res=rng.choice(kinds), fail=rng.random() < p_fail, flag=flag,
                           ret="z" if rng.random() < 0.15 else "t"))
+    if rng.random() < 0.35:
+        # tags (shared by several nodes): a configuration may address nodes through them
+        for s_ in specs:
+            s_["tag"] = rng.choice([None, "g0", "g0", "g1"])
     sc = dict(n=n, specs=specs, maxc=rng.randint(1, 4), is_async=rng.random() < 0.3, sel=None,
               script=dict(seed=rng.randrange(1 << 30)))
     if rng.random() < p_sel:
@@ -81,10 +85,28 @@ def gen(rng, max_n=8, p_sel=0.3, p_fail=0.06, mixed=True):
         if rng.random() < 0.7:
             rc["maxc"] = rng.randint(1, 4)
         if rc["how"] != "attr":
-            for i in rng.sample(range(n), min(n, rng.randint(0, 2))):
-                rc["nodes"][str(i)] = dict(priority=rng.choice([0, 4, -2, 7]), is_sequential=rng.random() < 0.3)
+            def entry():
+                # a configuration entry may state the priority, the sequential flag, both, or nothing at all:
+                # what it does not state keeps the node's declared value
+                full = dict(priority=rng.choice([0, 4, -2, 7]), is_sequential=rng.random() < 0.3)
+                r_ = rng.random()
+                keep = ["priority", "is_sequential"] if r_ < 0.5 else ["priority"] if r_ < 0.75 else \
+                    ["is_sequential"] if r_ < 0.95 else []
+                return {k_: full[k_] for k_ in keep}
+            taken = set()
+            tags = sorted({s_.get("tag") for s_ in specs if s_.get("tag")})
+            if tags and rng.random() < 0.6:
+                t_ = rng.choice(tags)
+                rc["nodes"]["tag:" + t_] = entry()
+                taken |= {i for i, s_ in enumerate(specs) if s_.get("tag") == t_}
+            free = [i for i in range(n) if i not in taken]      # a node configured twice is refused (ambiguous)
+            for i in rng.sample(free, min(len(free), rng.randint(0, 2))):
+                rc["nodes"][str(i)] = entry()
         if rc["maxc"] is not None or rc["nodes"]:
             sc["reconf"] = rc
+            # the DAG may have been CALLED before it is reconfigured (anything derived from the old
+            # configuration and kept by the instance must not survive the reconfiguration)
+            rc["warmup"] = rng.random() < 0.4
     return sc
 
 
@@ -95,9 +117,13 @@ def effective(sc):
         return sc
     eff = dict(sc)
     eff["specs"] = [dict(s) for s in sc["specs"]]
-    for i, conf in rc["nodes"].items():
-        eff["specs"][int(i)]["prio"] = conf["priority"]
-        eff["specs"][int(i)]["seq"] = conf["is_sequential"]
+    for key, conf in rc["nodes"].items():
+        idxs = [j for j, s_ in enumerate(sc["specs"]) if s_.get("tag") == key[4:]] if key.startswith("tag:") else [int(key)]
+        for j in idxs:
+            if "priority" in conf:
+                eff["specs"][j]["prio"] = conf["priority"]
+            if "is_sequential" in conf:
+                eff["specs"][j]["seq"] = conf["is_sequential"]
     if rc["maxc"] is not None:
         eff["maxc"] = rc["maxc"]
     return eff
@@ -109,7 +135,7 @@ def apply_reconf(d, rc):
     import tempfile as _tmp
     conf = {}
     if rc["nodes"]:
-        conf["nodes"] = {"n%s" % i: dict(c) for i, c in rc["nodes"].items()}
+        conf["nodes"] = {(i[4:] if i.startswith("tag:") else "n%s" % i): dict(c) for i, c in rc["nodes"].items()}
     if rc["maxc"] is not None:
         conf["max_concurrency"] = rc["maxc"]
     how = rc["how"]
@@ -206,7 +232,7 @@ def make_node(i, s):
         return value(i, s, args)
 
     body.__name__ = body.__qualname__ = "n%d" % i
-    node = xn(body, priority=s["prio"], is_sequential=s["seq"], resource=RES[s["res"]])
+    node = xn(body, priority=s["prio"], is_sequential=s["seq"], resource=RES[s["res"]], tag=s.get("tag"))
     # from here on the node id ("n<i>") and the wrapped function's name differ, as they do for a function
     # used at several call sites ("f<<1>>") or inside a nested DAG ("inner.f"): messages must name the NODE
     body.__qualname__ = "impl_of_node_%d" % i
@@ -263,6 +289,10 @@ def run_scenario(sc, timeout=40):
     """Build and run one scenario on the real code.  Returns a dict with everything observed."""
     d = build(sc)
     if sc.get("reconf"):
+        if sc["reconf"].get("warmup"):
+            # one call under the build-time configuration first (outcome irrelevant; under control so that it ends)
+            control.run_controlled(lambda: asyncio.run(d()) if sc["is_async"] else d(),
+                                   control.Script(rng=random.Random(sc["script"]["seed"] + 1)), timeout=timeout)
         apply_reconf(d, sc["reconf"])
     sel = sc.get("sel")
     if sel is None:
@@ -554,7 +584,9 @@ def monitors(sc, obs):
             if not m or not m.group(1).endswith("slice_s.py"):
                 bad("C14", "missing-call-location", message=str(exc))
         elif isinstance(exc, Boom) and exc.args and exc.args[0] in started:
-            pass  # the original exception (allowed when no location is known)
+            # the original exception is what the call raises when NO call location is known; every node of these
+            # scenarios is created by a call in build()'s describing function, so the location is always known
+            bad("C14", "bare-original-exception-although-location-known", node=exc.args[0], message=str(exc)[:100])
         else:
             bad("C14", "unattributable-exception", exc=type(exc).__name__, message=str(exc)[:200],
                 must_fail=must_fail)
